@@ -74,6 +74,32 @@ func gen(c *vf.Ctx, i int) history {
 	}
 	h := history{Case: i, Ops: ops}
 	h.Ending = []string{"stop", "kill", "stop"}[r.IntN(3)]
+	// Every third history ends with a directed motif: a snapshot (user request,
+	// or the one a graceful stop takes) that leaves a valid fast-restart
+	// fingerprint, then acknowledged writes that only the log holds, then SIGKILL.
+	if i%3 == 0 {
+		motifs := [][]string{
+			{"write", "snapshot", "write", "write"},
+			{"write", "restart", "write"},
+			{"write", "snapshot", "load", "write"},
+			{"write", "snapshot", "write", "join-nv"},
+			{"load", "snapshot", "write", "restart-nosnap", "write"},
+			{"write", "snapshot", "write", "snapshot", "write"},
+		}
+		for _, k := range motifs[(i/3)%len(motifs)] {
+			switch k {
+			case "write":
+				h.Ops = append(h.Ops, nscript.Op{Kind: k, Arg: w})
+				w++
+			case "load":
+				h.Ops = append(h.Ops, nscript.Op{Kind: k, Arg: l})
+				l++
+			default:
+				h.Ops = append(h.Ops, nscript.Op{Kind: k})
+			}
+		}
+		h.Ending = "kill"
+	}
 	h.NewAddr = r.IntN(2) == 0
 	// extra (unreachable) peers: the node alone must still hold its data; with
 	// extra voters it cannot elect itself, so only non-voters are added when we
@@ -102,6 +128,12 @@ func gen(c *vf.Ctx, i int) history {
 			}
 		}
 		h.AgainEnding = []string{"stop", "kill"}[r.IntN(2)]
+		if i%3 == 0 {
+			// the same motif before the second recovery
+			h.Again = append(h.Again, nscript.Op{Kind: "snapshot"}, nscript.Op{Kind: "write", Arg: 900000 + w})
+			w++
+			h.AgainEnding = "kill"
+		}
 	}
 	return h
 }
@@ -385,7 +417,7 @@ func runHistory(dir string, h history) (res result) {
 }
 
 func run(c *vf.Ctx) {
-	c.Rule("history = seeded sequence of 4-11 ops from {uniquely tagged non-idempotent write, user snapshot, load of a generated database, graceful restart, killed restart, join of a second real process as non-voter that is killed again (membership change at the log tail)} on a single real rqlited process, ended by graceful stop (snapshot-on-close) or SIGKILL; then a generated peers.json (this node, at the old or a new raft address, plus 0-2 unreachable non-voters) is written and the node restarted; in half of the histories the recovered node then runs 2-6 further ops (writes, snapshots on top of the recovery snapshot, killed restarts, loads), is stopped or killed and recovered a second time with the same peers file. Oracle: state read back by a strong read equals the model of acknowledged ops, /nodes equals the peers file, peers.json is renamed, a further write works, and a plain restart gives the same state. non-trivial = at least one acknowledged write/load since the last snapshot before shutdown, or a new address, or extra peers; distinct by history")
+	c.Rule("history = seeded sequence of 4-11 ops from {uniquely tagged non-idempotent write, user snapshot, load of a generated database, graceful restart, killed restart, join of a second real process as non-voter that is killed again (membership change at the log tail)} on a single real rqlited process (every third history ends with a directed motif: snapshot or graceful restart, then writes that only the log holds, then SIGKILL), ended by graceful stop (snapshot-on-close) or SIGKILL; then a generated peers.json (this node, at the old or a new raft address, plus 0-2 unreachable non-voters) is written and the node restarted; in half of the histories the recovered node then runs 2-6 further ops (writes, snapshots on top of the recovery snapshot, killed restarts, loads), is stopped or killed and recovered a second time with the same peers file. Oracle: state read back by a strong read equals the model of acknowledged ops, /nodes equals the peers file, peers.json is renamed, a further write works, and a plain restart gives the same state. non-trivial = at least one acknowledged write/load since the last snapshot before shutdown, or a new address, or extra peers; distinct by history")
 	c.Assume("single surviving node; extra peers are unreachable non-voters so the node can still elect itself")
 	nH := c.N(12, 200)
 	tmp := vf.TempDir("c33")
